@@ -196,7 +196,7 @@ class RecvCL2GiveFL( Component ):
 
   @non_blocking( lambda s : s.entry is None )
   def recv( s, msg ):
-    s.entry = msg
+    s.entry = clone_deepcopy( msg ) # the value: the caller may reuse the object
 
   def construct( s ):
 
